@@ -41,6 +41,22 @@ QNC[split='::']: ID('::'ID)*;
 """
 
 
+def grammar_files(root="/sim/g"):
+    """The same language as grammar(), split over three grammar files with a *transitive* import: main.tx imports
+    mid.tx, mid.tx imports deep.tx.  Wrap and Inner live in deep.tx: their classes are not visible by simple name from
+    the namespace of main.tx."""
+    g = grammar()
+    rules = {}
+    for block in g.strip().split("\n"):
+        name = block.split(":", 1)[0].split("[")[0].strip()
+        rules[name] = block
+    main = ["import mid"] + [rules[r] for r in ("Model", "Import")]
+    mid = ["import deep"] + [rules[r] for r in ("Item", "Def", "Box", "AltUse", "Use", "Tag", "QN", "QNC")]
+    deep = [rules[r] for r in ("Wrap", "Inner")]
+    return {f"{root}/main.tx": "\n".join(main) + "\n", f"{root}/mid.tx": "\n".join(mid) + "\n",
+            f"{root}/deep.tx": "\n".join(deep) + "\n"}
+
+
 class Ent:
     """A model object the generator knows about."""
 
